@@ -168,31 +168,114 @@ func rpmSqlite(tmpdir string, blobs [][]byte) ([]byte, error) {
 	return os.ReadFile(p)
 }
 
-// rpmNdb builds a Packages.db (rpm's "ndb" format) holding the blobs as packages 1..n.
-func rpmNdb(blobs [][]byte) []byte {
-	le := binary.LittleEndian
-	n := len(blobs)
-	npages := (n + 2 + 255) / 256
-	if npages == 0 {
-		npages = 1
+// ndbLayout says where the packages sit in a Packages.db: which slot (0-based, after the two
+// header-sized units of page 0) and which package index each blob gets, how many slot pages
+// there are, and in which order (and with how many free 16-byte blocks in front) the blobs
+// are written. A database with history has free slots anywhere (erased packages), indexes
+// that do not follow slot order (a new package reuses the first free slot) and blobs that do
+// not follow either.
+type ndbLayout struct {
+	npages  int
+	slot    []int    // slot position of blob i
+	index   []uint32 // package index of blob i
+	blobSeq []int    // order in which the blobs are written to the file
+	gapBlks []int    // free blocks before the blob written k-th
+	nextIdx uint32
+}
+
+// ndbFresh is the layout of a database that was only ever installed into: slots, indexes and
+// blobs all in order, no holes.
+func ndbFresh(n int) ndbLayout {
+	l := ndbLayout{npages: (n + 2 + 255) / 256, nextIdx: uint32(n + 1)}
+	if l.npages == 0 {
+		l.npages = 1
 	}
-	file := make([]byte, npages*4096)
+	for i := 0; i < n; i++ {
+		l.slot = append(l.slot, i)
+		l.index = append(l.index, uint32(i+1))
+		l.blobSeq = append(l.blobSeq, i)
+		l.gapBlks = append(l.gapBlks, 0)
+	}
+	return l
+}
+
+// ndbHistory is the layout of a database that packages were erased from and installed into:
+// free slots at the start and in the middle, slot pages beyond the first, package indexes
+// unrelated to slot order (the highest one possibly in the first slot, or erased), blobs
+// written in another order with free blocks between them.
+func ndbHistory(r interface{ Intn(int) int }, n int) ndbLayout {
+	need := (n + 2 + 255) / 256
+	if need == 0 {
+		need = 1
+	}
+	l := ndbLayout{npages: need + r.Intn(3)}
+	total := l.npages*256 - 2
+	span := total
+	if r.Intn(2) == 0 && n*3+8 < total {
+		span = n*3 + 8 // dense: holes of a few slots
+	}
+	perm := func(k int) []int {
+		p := make([]int, k)
+		for i := range p {
+			p[i] = i
+		}
+		for i := k - 1; i > 0; i-- {
+			j := r.Intn(i + 1)
+			p[i], p[j] = p[j], p[i]
+		}
+		return p
+	}
+	l.slot = perm(span)[:n]
+	idx := perm(2*n + 5)[:n]
+	max := uint32(0)
+	for _, x := range idx {
+		l.index = append(l.index, uint32(x+1))
+		if uint32(x+1) > max {
+			max = uint32(x + 1)
+		}
+	}
+	l.nextIdx = max + 1 + uint32(r.Intn(3))
+	l.blobSeq = perm(n)
+	for range l.blobSeq {
+		l.gapBlks = append(l.gapBlks, r.Intn(4)*r.Intn(2))
+	}
+	return l
+}
+
+// slotOrder lists the blobs in the order of their slots (the order a reader of the slot table
+// meets them).
+func (l ndbLayout) slotOrder() []int {
+	o := make([]int, len(l.slot))
+	for i := range o {
+		o[i] = i
+	}
+	sort.Slice(o, func(a, b int) bool { return l.slot[o[a]] < l.slot[o[b]] })
+	return o
+}
+
+// rpmNdb builds a Packages.db (rpm's "ndb" format) holding the blobs.
+func rpmNdb(blobs [][]byte) []byte { return rpmNdbLayout(blobs, ndbFresh(len(blobs))) }
+
+func rpmNdbLayout(blobs [][]byte, l ndbLayout) []byte {
+	le := binary.LittleEndian
+	file := make([]byte, l.npages*4096)
 	copy(file[0:], "RpmP")
 	le.PutUint32(file[4:], 0)
 	le.PutUint32(file[8:], 1)
-	le.PutUint32(file[12:], uint32(npages))
-	le.PutUint32(file[16:], uint32(n+1))
-	for i := 2; i < npages*256; i++ {
-		copy(file[i*16:], "Slot")
+	le.PutUint32(file[12:], uint32(l.npages))
+	le.PutUint32(file[16:], l.nextIdx)
+	for i := 2; i < l.npages*256; i++ {
+		copy(file[i*16:], "Slot") // a free slot: magic, everything else zero
 	}
-	for i, b := range blobs {
-		idx := uint32(i + 1)
+	for k, i := range l.blobSeq {
+		b := blobs[i]
+		file = append(file, make([]byte, 16*l.gapBlks[k])...)
 		blobLen := 16 + len(b) + 12
 		blocks := (blobLen + 15) / 16
 		off := len(file)
 		blob := make([]byte, blocks*16)
 		copy(blob[0:], "BlbS")
-		le.PutUint32(blob[4:], idx)
+		le.PutUint32(blob[4:], l.index[i])
 		le.PutUint32(blob[8:], 1)
 		le.PutUint32(blob[12:], uint32(len(b)))
 		copy(blob[16:], b)
@@ -201,8 +284,8 @@ func rpmNdb(blobs [][]byte) []byte {
 		le.PutUint32(blob[len(blob)-8:], uint32(len(b)))
 		copy(blob[len(blob)-4:], "BlbE")
 		file = append(file, blob...)
-		s := (2 + i) * 16
-		le.PutUint32(file[s+4:], idx)
+		s := (2 + l.slot[i]) * 16
+		le.PutUint32(file[s+4:], l.index[i])
 		le.PutUint32(file[s+8:], uint32(off/16))
 		le.PutUint32(file[s+12:], uint32(blocks))
 	}
